@@ -35,7 +35,9 @@ def required_cells(tier):
             "variant:weak": 2, "variant:covariance": 4, "variant:history": 4,
             "lowT": 3, "complexH": 6, "n_steps:2": 1, "n_steps>=20": 2,
             "energy-offset:+20": 2, "energy-offset:-20": 2,
-            "energy-offset:+35": 2, "preused_correlations": 10}
+            "energy-offset:+35": 2, "preused_correlations": 10,
+            "shared-parameters-across-temperatures": 2,
+            "two-baths-from-one-updated-correlations-object": 2}
 
 
 def cases(tier, seed):
@@ -127,6 +129,51 @@ def run_case(case):
                                          progress_type="silent")
 
     nontrivial = True
+    if variant == "commuting" and (i // 14) % 3 == 1:
+        # a temperature scan with ONE GibbsParameters object: the step
+        # length 1/(T n) belongs to each computation, not to the object
+        t_first = temp * [1.7, 0.6][(i // 42) % 2]
+        e_first = rng.normal(size=d)
+        st_first = oqupy.gibbs_tempo_compute(
+            oqupy.System(np.diag(e_first).astype(complex)),
+            oqupy.Bath(oper, gen.make_power_law(dict(p, temperature=t_first))),
+            gp, progress_type="silent")
+        lam_first = rbath.reorganisation_energy(dict(p, temperature=t_first))
+        ref_first = models.gibbs_commuting(e_first, o, lam_first, t_first)
+        cells.append("shared-parameters-across-temperatures")
+        if float(np.abs(st_first - ref_first).max()) > bound * max(
+                1.0, temp / t_first):
+            violations.append({
+                "what": "first computation of a temperature scan deviates "
+                        "from the closed form", "mechanism": "gibbs-closed-form",
+                "detail": {}})
+    if variant == "commuting" and (i // 14) % 3 == 2:
+        # two baths taken from ONE correlations object before and after its
+        # coupling strength was changed, used one after the other on the
+        # same imaginary-time grid
+        corr_sh = gen.make_power_law(p)
+        bath_1 = oqupy.Bath(oper, corr_sh)
+        p_b = dict(p, alpha=p["alpha"] * 2.5)
+        corr_sh.alpha = p_b["alpha"]
+        bath_2 = oqupy.Bath(oper, corr_sh)
+        e_sh = rng.normal(size=d)
+        hs = oqupy.System(np.diag(e_sh).astype(complex))
+        s_1 = oqupy.gibbs_tempo_compute(hs, bath_1, gp, progress_type="silent")
+        s_2 = oqupy.gibbs_tempo_compute(hs, bath_2, gp, progress_type="silent")
+        lam_b = rbath.reorganisation_energy(p_b)
+        r_1 = models.gibbs_commuting(e_sh, o, lam, temp)
+        r_2 = models.gibbs_commuting(e_sh, o, lam_b, temp)
+        cells.append("two-baths-from-one-updated-correlations-object")
+        sc_b = 1.0 + lam_b * float(np.max(o ** 2)) / temp
+        for nm, s_, r_ in (("first", s_1, r_1), ("second", s_2, r_2)):
+            dv = float(np.abs(s_ - r_).max())
+            if dv > bound * sc_b / scale:
+                violations.append({
+                    "what": f"the {nm} of two baths built from one "
+                            f"correlations object (alpha changed in between) "
+                            f"gives a Gibbs state {dv:.3e} away from the "
+                            f"closed form for its own alpha",
+                    "mechanism": "gibbs-closed-form", "detail": {}})
     if variant == "commuting":
         e = rng.normal(size=d)
         # the zero of energy is arbitrary (also far from 0 in units of T:
